@@ -5,7 +5,7 @@
    regenerated guard obligations (coq/Gen/C13/Guards.v) fail.  Whole-compiler totality is NOT a theorem: it is
    searched over the property's own quantifier (every single-token edit of every corpus program) by c13.py. *)
 From Coq Require Import ZArith NArith List Bool String.
-From JMCV Require Import Model.Tok Model.TokPos Model.TokGuards Proofs.Tok Proofs.TokGuards Proofs.TokProps.
+From JMCV Require Import Model.Tok Model.TokPos Model.TokGuards Model.TokMacro Proofs.Tok Proofs.TokGuards Proofs.TokProps Proofs.TokMacro.
 Import ListNotations.
 Open Scope Z_scope.
 
@@ -56,9 +56,68 @@ Theorem C13_guard_facts : forall (A : Type) (l : list A) (x : A) k i,
 Proof. exact p_C13_guard_facts. Qed.
 Print Assumptions C13_guard_facts.
 
+(* ---- round 4: vanilla macros `$(name)`.  Tokenizer.merge_vanilla_macro folds `$` + `(name)` [+ a connected keyword] into one
+   token IN PLACE while its callers keep counting positions of the original list (Model/TokMacro.v).  For every token list
+   (of well-formed Token objects: what Token.__post_init__ guarantees), every position key_pos >= 0 - also far beyond the end
+   of the list - and every behaviour of clean_up_paren_token that raises nothing but JMC diagnostics, the call returns a list
+   or a JMC diagnostic: no subscript is evaluated before its length guard, the slice handed to merge_tokens is never empty,
+   and the merged token passes Token.__post_init__. *)
+Theorem C13_macro_merge_total : forall cleanup repr_len l kp,
+  cleanup_total cleanup -> Forall wf_tok l -> 0 <= kp ->
+  no_crash (merge_vm cleanup repr_len l kp).
+Proof. exact p_C13_macro_merge_total. Qed.
+Print Assumptions C13_macro_merge_total.
+
+(* The three kinds of caller: condition_to_ast's `for key_pos in range(len(tokens) - short)` with the range computed ONCE
+   (any `short`; the source has 0), Lexer._is_vanilla_func's loop with its own guard, and any sequence of non-negative
+   positions (FuncContent merges at command positions while it enumerates the command): none of them can crash, on any list. *)
+Theorem C13_macro_loops_total : forall cleanup repr_len l,
+  cleanup_total cleanup -> Forall wf_tok l ->
+  (forall short, no_crash (cond_merge_gen cleanup repr_len true short l)) /\
+  no_crash (vanilla_merge cleanup repr_len l) /\
+  (forall ks, Forall (fun k => 0 <= k) ks -> no_crash (merge_seq cleanup repr_len ks l)).
+Proof. exact p_C13_macro_loops_total. Qed.
+Print Assumptions C13_macro_loops_total.
+
+(* ... and they keep a non-empty condition / command non-empty (and never make it longer): the fact the subscripts
+   `tokens[0]` after the loops rely on (the regenerated obligations of condition_to_ast / _is_vanilla_func use it). *)
+Theorem C13_macro_nonempty : forall cleanup repr_len l l',
+  cleanup_total cleanup -> Forall wf_tok l -> (1 <= List.length l)%nat ->
+  (cond_merge cleanup repr_len l = Ok l' \/ vanilla_merge cleanup repr_len l = Ok l') ->
+  (1 <= List.length l' <= List.length l)%nat.
+Proof. exact p_C13_macro_nonempty. Qed.
+Print Assumptions C13_macro_nonempty.
+
+(* Why the ORDER of the conjuncts matters (the class of change round 4 missed): with `tokens[key_pos].string.endswith("$")`
+   read before the length guard (guard_first = false) the condition `$(p)_x == 1` and the condition
+   `score $(p) $(o) matches 1..` end in IndexError under `range(len(tokens) - 1)`, the first one also under the source's
+   `range(len(tokens))`; with the guard first, `range(len(tokens) - 1)` is harmless. *)
+Theorem C13_macro_guard_order_refuted :
+  cleanup_total id_cleanup /\ Forall wf_tok w_macro_suffix /\ Forall wf_tok w_two_macros /\
+  cond_merge_gen id_cleanup str_len false 1 w_macro_suffix = Crash IndexError /\
+  cond_merge_gen id_cleanup str_len false 1 w_two_macros = Crash IndexError /\
+  cond_merge_gen id_cleanup str_len false 0 w_macro_suffix = Crash IndexError /\
+  (exists l', cond_merge_gen id_cleanup str_len true 1 w_macro_suffix = Ok l' /\ List.length l' = 3%nat).
+Proof. exact p_C13_macro_guard_order_refuted. Qed.
+Print Assumptions C13_macro_guard_order_refuted.
+
+(* The hypothesis 0 <= key_pos of C13_macro_merge_total cannot be dropped: at position -2 of `a $ (p)` the slice
+   tokens[-2:0] handed to merge_tokens is empty.  (Every caller passes a loop index: regenerated call-site obligations.) *)
+Theorem C13_macro_negative_position_refuted :
+  merge_vm id_cleanup str_len
+    [mkTok KEYWORD 1 1 (of_string "a"%string) false; mkTok KEYWORD 1 3 (of_string "$"%string) false;
+     mkTok PAREN_ROUND 1 4 (of_string "(p)"%string) false] (-2) = Crash IndexError.
+Proof. exact p_C13_macro_negative_refuted. Qed.
+Print Assumptions C13_macro_negative_position_refuted.
+
 (* Non-vacuity: the tokenizer does report diagnostics and does return statements. *)
 Example C13_nonvacuous :
   parse (fun _ => None) (fun _ => true) false true false (of_string "say ""a"" }"%string) 1 1 = Diag DUnexpectedBracket 1 9 /\
   parse (fun _ => None) (fun _ => true) false true false (of_string "say ""\x"";"%string) 1 1 = Diag DBadString 1 8 /\
   (exists p, parse (fun _ => None) (fun _ => true) false true false (of_string "if (a) { b; } c;"%string) 1 1 = Ok p /\ List.length p = 2%nat).
 Proof. vm_compute. repeat split. eexists. split; reflexivity. Qed.
+
+(* Non-vacuity (round 4): the model does merge: `$(p)_x == 1` becomes `$(p)_x`, `==`, `1`. *)
+Example C13_macro_nonvacuous :
+  exists m a b, cond_merge id_cleanup str_len w_macro_suffix = Ok [m; a; b] /\ t_str m = of_string "$(p)_x"%string /\ t_type m = KEYWORD.
+Proof. vm_compute. do 3 eexists. repeat split. Qed.
